@@ -128,7 +128,7 @@ def gen(r, tier, i):
         gen['regen'] = gen['kill_after'] is not None and r.random() < 0.6
     # legacy style: some flow steps are listed under processes (their flow entries stay in the flow)
     legacy = [k for k in range(n) if i >= len(_ENUM) * 4 and r.random() < 0.2]
-    return {'gen': gen, 'legacy': legacy, 'deps': deps, 'comp': comp, 'order': order, 'nder': nder,
+    return {'gen': gen, 'legacy': legacy, 'tuple_flow': i >= len(_ENUM) * 4 and r.random() < 0.2, 'deps': deps, 'comp': comp, 'order': order, 'nder': nder,
             'der_in': [r.choice(['steps', 'processes']) for _ in range(nder)],
             'procs': [r.choice([0.5, 1.0, 1.5, 2.0]) for _ in range(r.randint(1, 3))],
             'calls': [[r.choice([1.0, 2.0, 2.5, 3.0]), r.choice([True, False, 'update'])] for _ in range(r.randint(1, 3))] + [[1.0, 'update']]}
@@ -169,7 +169,8 @@ def run(spec):
         rel = []
         for j in deps[k]:
             rel.append(tuple(comp[j][len(comp[k]):]) + ('s%d' % j,))
-        put(flow, comp[k], name, rel)
+        # (the flow entry is a sequence of paths: a list, or - as the documentation allows - a tuple)
+        put(flow, comp[k], name, tuple(rel) if spec.get('tuple_flow') else rel)
         put(topo, comp[k], name, {'log': tuple(['..'] * len(comp[k])) + ('log',)})
     gen = spec.get('gen')
     if gen:
